@@ -88,6 +88,11 @@ type rs_jrd struct {
 	NL     bool   `json:"nl"`
 	Sync   bool   `json:"sync"`
 	Msgs   []rs_jmsg `json:"msgs"`
+	Reads  []rs_jread `json:"reads"`
+}
+type rs_jread struct {
+	Ctx uint64 `json:"ctx"`
+	Idx uint64 `json:"idx"`
 }
 type rs_jpost struct {
 	Up       bool     `json:"up"`
@@ -204,6 +209,18 @@ func rs_convMsg(m pb.Message) rs_jmsg {
 	if m.Type == pb.MsgSnap {
 		j.Snap = rs_convSnap(m.Snapshot)
 	}
+	// on heartbeats, heartbeat responses and read-index messages `hint` carries the read request id
+	switch m.Type {
+	case pb.MsgHeartbeat, pb.MsgHeartbeatResp:
+		if len(m.Context) > 0 {
+			j.Hint, _ = strconv.ParseUint(string(m.Context), 10, 64)
+		}
+	case pb.MsgReadIndex, pb.MsgReadIndexResp:
+		if len(m.Entries) > 0 {
+			j.Hint, _ = strconv.ParseUint(string(m.Entries[0].Data), 10, 64)
+		}
+		j.Ents = []rs_jent{}
+	}
 	sort.Slice(j.Snap.Voters, func(a, b int) bool { return j.Snap.Voters[a] < j.Snap.Voters[b] })
 	sort.Slice(j.Snap.Learners, func(a, b int) bool { return j.Snap.Learners[a] < j.Snap.Learners[b] })
 	return j
@@ -227,7 +244,9 @@ func rs_wireCopy(m pb.Message) pb.Message {
 }
 
 func rs_noMsg() rs_jmsg { return rs_jmsg{T: "none", Ents: []rs_jent{}, Snap: rs_noSnap()} }
-func rs_noRd() rs_jrd  { return rs_jrd{Ents: []rs_jent{}, CEnts: []rs_jent{}, Snap: rs_noSnap(), Msgs: []rs_jmsg{}} }
+func rs_noRd() rs_jrd {
+	return rs_jrd{Ents: []rs_jent{}, CEnts: []rs_jent{}, Snap: rs_noSnap(), Msgs: []rs_jmsg{}, Reads: []rs_jread{}}
+}
 
 // ---------------------------------------------------------------- simulation state
 
@@ -283,6 +302,8 @@ type rs_sim struct {
 	noAvoid  bool
 	slow     uint64 // replica that only gets one hand-out page per delivered message
 	owed     [][3]uint64 // snapshot status reports owed to a busy sender: leader, peer, ok
+	noApply  uint64      // replica whose application does NOT apply conf changes before Advance (study only)
+	nextRead uint64
 }
 
 func (s *rs_sim) inc(k string) { s.cnt[k]++ }
@@ -456,6 +477,11 @@ func (s *rs_sim) take(r *rs_rep, e rs_jev, moreApply, busySnap bool) {
 	j.NL = r.newLeader
 	j.Sync = rd.MustSync
 	j.Msgs = rs_convMsgs(rs_sortMsgs(rd.Messages))
+	for _, x := range rd.ReadStates {
+		c, _ := strconv.ParseUint(string(x.RequestCtx), 10, 64)
+		j.Reads = append(j.Reads, rs_jread{Ctx: c, Idx: x.Index})
+		s.inc("read_states_handed_out")
+	}
 	// the application side: a snapshot supersedes everything queued before it
 	if !raft.IsEmptySnap(rd.Snapshot) {
 		r.pendq = nil
@@ -464,7 +490,7 @@ func (s *rs_sim) take(r *rs_rep, e rs_jev, moreApply, busySnap bool) {
 		r.confState = rd.Snapshot.Metadata.ConfState
 	}
 	r.pendq = append(r.pendq, rd.CommittedEntries...)
-	if !r.newLeader {
+	if !r.newLeader && s.noApply != r.id {
 		// production waits for the configuration changes of this Ready to be applied before it
 		// sends the Ready's messages and advances (node/raft.go processReady, waitApply)
 		last := -1
@@ -976,6 +1002,16 @@ func (s *rs_sim) proposeConf(r *rs_rep, typ pb.ConfChangeType, target uint64) {
 	s.take(r, rs_jev{Ev: "proposeconf", CC: k}, s.moreApplyFor(r), false)
 }
 
+// readIndex: a linearizable read request (Node.ReadIndex) issued at r; the ReadState comes back
+// in a later Ready of the same replica.
+func (s *rs_sim) readIndex(r *rs_rep) {
+	s.nextRead++
+	id := 5000 + s.nextRead
+	r.n.ReadIndex(context.TODO(), []byte(strconv.FormatUint(id, 10)))
+	s.inc("read_requests")
+	s.take(r, rs_jev{Ev: "readindex", A: id}, s.moreApplyFor(r), false)
+}
+
 func (s *rs_sim) transfer(r *rs_rep, to uint64) {
 	r.n.TransferLeadership(context.TODO(), r.id, to)
 	s.inc("transfers")
@@ -1199,6 +1235,16 @@ func (s *rs_sim) randomStep() {
 	x := s.rng.Intn(100)
 	v := raft.VerifState(r.n)
 	isLeader := v.Role == "StateLeader"
+	if s.rng.Intn(16) == 0 || (s.phase == "leader-with-learners" && s.rng.Intn(5) == 0) {
+		// at any replica: served by the leader, forwarded by a follower, dropped without a leader;
+		// two times out of three at the current leader (if it is idle)
+		t := r
+		if l := s.leaderID(); l != 0 && s.rng.Intn(3) > 0 && s.reps[l].rd == nil {
+			t = s.reps[l]
+		}
+		s.readIndex(t)
+		return
+	}
 	if s.cfg.Profile == "stall" && isLeader && s.rng.Intn(5) == 0 {
 		s.propose(r)
 		return
@@ -1224,7 +1270,7 @@ func (s *rs_sim) randomStep() {
 			s.tick(r)
 		}
 	case x < 36:
-		if isLeader && s.cfg.Profile != "noconf" && s.cfg.Profile != "growone" && s.cfg.Profile != "snapdiv" {
+		if isLeader && s.cfg.Profile != "noconf" && s.cfg.Profile != "growone" && s.cfg.Profile != "snapdiv" && s.cfg.Profile != "shrinkq" {
 			s.proposeConfRandom(r)
 		} else {
 			s.tick(r)
@@ -1423,6 +1469,10 @@ func (s *rs_sim) calmRounds(n int) {
 // settleOne: complete r's pipeline and apply everything - except for the replica marked slow,
 // which only completes its outstanding Ready (one hand-out page per delivered message).
 func (s *rs_sim) settleOne(r *rs_rep) {
+	if s.noApply == r.id {
+		s.finishReady(r)
+		return
+	}
 	if s.slow == r.id {
 		s.finishReady(r)
 		for s.live(r) && r.rd == nil && len(r.pendq) > 0 {
@@ -1877,6 +1927,71 @@ func (s *rs_sim) scenarioSnapshotOverDivergentTail(variant int) {
 	s.inc("scenario_snapshot_divergent_tail_healed")
 	s.blocked = map[uint64]bool{}
 	s.calmRounds(10)
+}
+
+// scenarioShrinkingQuorum (profile shrinkq - a STUDY, not part of any registered tier: it breaks
+// the application contract on purpose).  5 voters, PreVote/CheckQuorum off.  Replica C advances
+// the Readys that hand out "remove X" and "remove Y" WITHOUT applying them (what node/raft.go
+// processReady never does: it waits for the configuration changes of a Ready before Advance),
+// campaigns with its stale 5-voter configuration, collects X's vote, applies both removals
+// (quorum 3 -> 2) and then counts {C, X} as a quorum of {L, C, B} on the next response, while B
+// is elected in the same term by L.
+func (s *rs_sim) scenarioShrinkingQuorum() {
+	s.phase = "shrinking-quorum"
+	l := s.electLeader()
+	if l == 0 {
+		return
+	}
+	lr := s.reps[l]
+	lv := raft.VerifState(lr.n)
+	var o []uint64
+	for _, id := range lv.Voters {
+		if id != l {
+			o = append(o, id)
+		}
+	}
+	if len(o) < 4 {
+		return
+	}
+	c, b, x, y := o[0], o[1], o[2], o[3]
+	cr, br := s.reps[c], s.reps[b]
+	s.calmRounds(3)
+	s.noApply = c
+	s.blocked = map[uint64]bool{x: true, y: true}
+	for _, id := range []uint64{x, y} {
+		s.finishReady(lr)
+		if !s.live(lr) || lr.rd != nil {
+			return
+		}
+		s.proposeConf(lr, pb.ConfChangeRemoveNode, id)
+		s.calmRounds(5)
+	}
+	if len(raft.VerifState(lr.n).Voters) != 3 || len(raft.VerifState(cr.n).Voters) != 5 || len(cr.pendq) < 2 {
+		s.inc("scenario_shrinking_quorum_setup_failed")
+		return
+	}
+	// C campaigns with the stale configuration and gets X's vote
+	s.blocked = map[uint64]bool{}
+	s.finishReady(cr)
+	s.campaign(cr)
+	s.finishReady(cr)
+	s.deliverTo(c, x, pb.MsgVote)
+	s.deliverTo(x, c, pb.MsgVoteResp)
+	// B campaigns in the same term and is elected by L
+	s.finishReady(br)
+	s.campaign(br)
+	s.finishReady(br)
+	s.deliverTo(b, l, pb.MsgVote)
+	s.deliverTo(l, b, pb.MsgVoteResp)
+	// now C's application applies the two removals ...
+	for k := 0; k < 4 && s.live(cr) && len(cr.pendq) > 0; k++ {
+		s.applyThroughConf(cr)
+	}
+	// ... and the next response (B's rejection) makes C count its votes against the smaller set
+	s.deliverTo(c, b, pb.MsgVote)
+	s.deliverTo(b, c, pb.MsgVoteResp)
+	s.inc("scenario_shrinking_quorum_done")
+	s.noApply = 0
 }
 
 // scenarioGrowOne (profile growone; from MC_ZRaft_Conf behaviours and the restart rule): the
@@ -2356,6 +2471,9 @@ func raftsim(args []string) error {
 		}
 		if s.cfg.Profile == "growone" {
 			s.scenarioGrowOne()
+		}
+		if s.cfg.Profile == "shrinkq" && len(s.cfg.Voters) >= 5 && !s.cfg.CQ && !s.cfg.PreVote {
+			s.scenarioShrinkingQuorum()
 		}
 		if s.cfg.Profile == "snapdiv" && len(s.cfg.Voters) >= 5 && !s.cfg.CQ {
 			for v := 0; v < 3 && !s.panicked; v++ {
